@@ -88,7 +88,7 @@ Proof.
   intros Hx Hb Hbp Ho. pose proof (I_slab _ _ _ I x Hx) as S.
   unfold free_small. rewrite (obj_contains c F _ _ x p S Ho). cbn [negb].
   rewrite (find_blk_in p (live s) b (I_live_nodup _ _ _ I) Hb Hbp).
-  assert (E : (sl_nres x =? 0) = false) by (apply N.eqb_neq; pose proof (so_nres _ _ _ _ S); lia).
+  assert (E : (sl_nres x =? 0) = false) by (apply N.eqb_neq; pose proof (nres_pos c k s I x p b Hx Hb Hbp Ho); lia).
   rewrite E.
   assert (E2 : match sl_avail x with [] => false | a :: _ => negb (sl_contains c x a) end = false).
   { destruct (sl_avail x) as [|a r] eqn:Ea; [reflexivity|].
@@ -433,18 +433,17 @@ Fixpoint log_from (c : cfg) (s : state) (ops : list op) : list callback :=
   | o :: r => cbs_of (step c s o) ++ log_from c (st_of (step c s o)) r
   end.
 
-Lemma run_log c : cfg_facts c -> forall ops k s m,
-  Inv c k s -> k + N.of_nat (length ops) < 4294967296 -> hist_ok_both c s ops -> tracks m s ->
+Lemma run_log c : cfg_facts c -> forall ops s m,
+  Inv c 0 s -> hist_ok_both c s ops -> tracks m s ->
   exists m', proto m (log_from c s ops) = Some m' /\ tracks m' (run_from c s ops).
 Proof.
-  intros F. induction ops as [|o r IH]; intros k s m I Hk [H1 H2] T.
+  intros F. induction ops as [|o r IH]; intros s m I [H1 H2] T.
   - cbn. exists m. auto.
   - cbn [hist_ok] in H1, H2. apply andb_prop in H1. apply andb_prop in H2.
     destruct H1 as [P1 P2], H2 as [A1 A2].
-    cbn [length] in Hk. rewrite Nat2N.inj_succ in Hk.
-    destruct (step_inv c F k s I ltac:(lia) o P1 A1) as [I' R].
-    destruct (step_log c F k s I ltac:(lia) o m P1 A1 T) as (m1 & Q1 & T1 & _).
-    destruct (IH (k + 1) (st_of (step c s o)) m1 I' ltac:(lia) (conj P2 A2) T1) as (m2 & Q2 & T2).
+    destruct (step_inv c F 0 s I ltac:(lia) o P1 A1) as [I' R].
+    destruct (step_log c F 0 s I ltac:(lia) o m P1 A1 T) as (m1 & Q1 & T1 & _).
+    destruct (IH (st_of (step c s o)) m1 (Inv_any c _ 0 _ I') (conj P2 A2) T1) as (m2 & Q2 & T2).
     exists m2. cbn [log_from run_from fold_left]. rewrite proto_app, Q1. auto.
 Qed.
 
@@ -452,7 +451,7 @@ Definition log (c : cfg) (ops : list op) : list callback := log_from c (init c) 
 
 Theorem C03_protocol_main :
   forall (c : cfg) (ops : list op),
-    cfg_ok c = true -> policy_ok c ops -> api_ok c ops -> history_short ops ->
+    cfg_ok c = true -> policy_ok c ops -> api_ok c ops ->
     forall pre, prefix pre ops ->
     let s := run c pre in
     (exists m, proto [] (log c pre) = Some m /\ Permutation m (mapped s))
@@ -461,13 +460,12 @@ Theorem C03_protocol_main :
     /\ ((forall b x, In b (live s) -> In x (larges s) -> bk_p b <> lg_addr c x) ->
         larges s = [] /\ mapped s = map sl_region (slabs s)).
 Proof.
-  intros c ops Hc Hp Ha Hs pre (suf & ->) s. pose proof (cfg_ok_facts c Hc) as F.
-  unfold policy_ok, api_ok, history_short in *. apply hist_ok_app in Hp. apply hist_ok_app in Ha.
-  rewrite app_length, Nat2N.inj_add in Hs.
-  pose proof (run_inv c F pre 0 (init c) (init_inv c F) ltac:(lia) (conj Hp Ha)) as [I _].
-  rewrite N.add_0_l in I. fold (run c pre) in I. fold s in I.
+  intros c ops Hc Hp Ha pre (suf & ->) s. pose proof (cfg_ok_facts c Hc) as F.
+  unfold policy_ok, api_ok in *. apply hist_ok_app in Hp. apply hist_ok_app in Ha.
+  pose proof (run_inv c F pre (init c) (init_inv c F) (conj Hp Ha)) as [I _].
+  fold (run c pre) in I. fold s in I.
   split; [|split; [|split]].
-  - destruct (run_log c F pre 0 (init c) [] (init_inv c F) ltac:(lia) (conj Hp Ha)) as (m & P & T).
+  - destruct (run_log c F pre (init c) [] (init_inv c F) (conj Hp Ha)) as (m & P & T).
     { unfold tracks, mapped, init. cbn. constructor. }
     exists m. split; [exact P|exact T].
   - apply (I_used _ _ _ I).
@@ -484,15 +482,14 @@ Qed.
 (* at every unmap of an admissible history no block that remains live intersects the region *)
 Theorem C03_unmap_safe_main :
   forall (c : cfg) (ops : list op) (o : op),
-    cfg_ok c = true -> policy_ok c (ops ++ [o]) -> api_ok c (ops ++ [o]) -> history_short (ops ++ [o]) ->
+    cfg_ok c = true -> policy_ok c (ops ++ [o]) -> api_ok c (ops ++ [o]) ->
     let s := run c ops in
     forall b0 l0, In (CUnmap b0 l0) (cbs_of (step c s o)) ->
       forall b', In b' (live (st_of (step c s o))) -> disjoint (bk_p b') (bk_size0 b') b0 l0.
 Proof.
-  intros c ops o Hc Hp Ha Hs s. pose proof (cfg_ok_facts c Hc) as F.
-  destruct (prefix_inv c _ ops Hc Hp Ha Hs ltac:(eexists; reflexivity)) as [I _]. fold s in I.
-  assert (Hs' : N.of_nat (length ops) + 1 < 4294967296).
-  { unfold history_short in Hs. rewrite app_length, Nat2N.inj_add in Hs. cbn in Hs. lia. }
+  intros c ops o Hc Hp Ha s. pose proof (cfg_ok_facts c Hc) as F.
+  destruct (prefix_inv c _ ops Hc Hp Ha ltac:(eexists; reflexivity)) as [I _]. fold s in I.
+  assert (Hs' : 0 + 1 < 4294967296) by lia.
   assert (Hlast : forall P, hist_ok P c (init c) (ops ++ [o]) = true -> P c s o = true).
   { intros P. unfold s, run. generalize (init c). clear. induction ops as [|o' l IH]; intros s0; cbn.
     - rewrite andb_true_r. auto.
